@@ -8,6 +8,7 @@ import (
 	"bytes"
 	"fmt"
 	"reflect"
+	"sort"
 	"strings"
 	"testing"
 
@@ -19,6 +20,7 @@ type CaseBytes struct {
 	W     HexBytes `json:"w"`
 	Spare int      `json:"spare,omitempty"` // spare capacity of the input buffer behind the data (C09/C10)
 	Pre   []PreOp  `json:"pre,omitempty"`   // prior calls in the same process
+	Twin  HexBytes `json:"twin,omitempty"`  // C10: the same message with truthful counts/lengths (W only overstates a prefix)
 }
 
 // computedSpans: byte ranges of self-computed fields in the rendering of v (any depth).
@@ -354,6 +356,46 @@ func fieldStem(name string) string {
 
 // correlate copies into dst the values of src's fields that have the same name (ignoring an Orig/New/... prefix)
 // and kind: an order and its cancel request, a report and its acknowledgement, carry the same identifiers.
+var relatedCache = map[string][]string{}
+
+// relatedTypes: the other types of the module ordered by how many field names they share with tn.
+func relatedTypes(tn string) []string {
+	if l, ok := relatedCache[tn]; ok {
+		return l
+	}
+	stems := map[string]bool{}
+	for _, f := range Types[tn].Fields {
+		stems[fieldStem(f.Go)] = true
+	}
+	type sc struct {
+		n string
+		k int
+	}
+	var l []sc
+	for _, o := range moduleTypes(Types[tn].Module) {
+		if o == tn {
+			continue
+		}
+		k := 0
+		for _, f := range Types[o].Fields {
+			if stems[fieldStem(f.Go)] {
+				k++
+			}
+		}
+		l = append(l, sc{o, k})
+	}
+	sort.SliceStable(l, func(i, j int) bool { return l[i].k > l[j].k })
+	out := make([]string, 0, len(l))
+	for _, x := range l {
+		out = append(out, x.n)
+	}
+	if len(out) == 0 {
+		out = []string{tn}
+	}
+	relatedCache[tn] = out
+	return out
+}
+
 func correlate(dst, src *Value) {
 	ds, ss := Types[dst.Type], Types[src.Type]
 	for i, df := range ds.Fields {
@@ -597,14 +639,19 @@ func TestC16(t *testing.T) {
 				ov, _ := GenValue(rt, tn, o)
 				c := &CaseC16{Type: tn, V: v, Other: ov}
 				switch rapid.IntRange(0, 5).Draw(rt, "prior") {
-				case 0: // the previous message of the same type: identical but for one number stepped by one
+				case 0: // the previous message of the same type: one number stepped by one, possibly one text different
 					pv := v.Clone()
 					stepOneNumber(rt, pv)
+					if rapid.Bool().Draw(rt, "alsotext") {
+						pv = relatedValue(rt, pv)
+					}
 					c.Pre = []PreOp{{Kind: "dec", Type: tn, W: Render(pv, nil).Bytes}}
-				case 1: // a message of another type of the protocol whose like-named fields carry the same values
-					ot := rapid.SampledFrom(moduleTypes(Types[tn].Module)).Draw(rt, "othertype")
+				case 1: // a message of a related type of the protocol (sharing field names); this message then carries the
+					// same values in its like-named fields (an order and its cancel request, a report and its acknowledgement)
+					rel := relatedTypes(tn)
+					ot := rel[rapid.IntRange(0, min(len(rel), 6)-1).Draw(rt, "othertype")]
 					pv, _ := GenValue(rt, ot, o)
-					correlate(pv, v)
+					correlate(v, pv)
 					c.Pre = []PreOp{{Kind: "dec", Type: ot, W: Render(pv, nil).Bytes}}
 				case 2:
 					c.Pre, _ = genPrelude(rt, tn, false)
